@@ -526,12 +526,18 @@ func suiteC20(c *ctx) {
 		cases = append(cases, wc)
 		per = append(per, p)
 	}
-	for i := 0; i < c.n(12); i++ {
+	for i := 0; i < c.n(16); i++ {
 		// Fibonacci-weighted alphabets large enough (>= 17 symbols: n >= 4181) for the optimal code to be
 		// deeper than 15 bits: the length-limiting path of the code generator
 		s := []Setting{{API: "flate", Level: -2}, {API: "flate", Level: -2, Win4K: true}, {API: "flate", Level: 1}, {API: "flate", Level: 2}, {API: "gzip", Level: -2}, {API: "flate", Level: -1, Win4K: true}}[i%6]
 		n := r.Pick([]int{30000, 65536, 70000, 131072, 200000})
-		cases = append(cases, &WCase{Prop: "C20", ID: fmt.Sprintf("C20-f%d", i), Set: s, Datas: []DataSpec{{Gen: "fib", Seed: r.U64(), N: n}}, Ops: []Op{{K: "w", N: n}, {K: "c"}}})
+		gen := "fib"
+		if i%4 == 3 {
+			gen = "dom50"
+			n = r.Pick([]int{300000, 1000000})
+			s = Setting{API: "flate", Level: -2, Win4K: i%8 == 7}
+		}
+		cases = append(cases, &WCase{Prop: "C20", ID: fmt.Sprintf("C20-f%d", i), Set: s, Datas: []DataSpec{{Gen: gen, Seed: r.U64(), N: n}}, Ops: []Op{{K: "w", N: n}, {K: "c"}}})
 		per = append(per, 0)
 	}
 	parallelJ(len(cases), func(i int) interface{} { return cases[i] }, func(i int) { checkC20(c.rep, c.pool, cases[i], per[i]) })
